@@ -63,8 +63,10 @@ def model_check(ctx, thorough):
 
 def signature(rec, reason):
     """reason = '<clause>@<type or wrapper>' -> 'C17:<type>:<clause>'"""
-    clause, _, where = reason.rpartition("@")
-    return "C17:%s:%s" % (where or rec.get("type", rec["f"]), clause)
+    clause, sep, where = reason.rpartition("@")
+    if not sep:
+        clause, where = reason, rec.get("type", rec["f"])
+    return "C17:%s:%s" % (where, clause)
 
 
 def judge_lines(ctx, lines, origin, verdict=True):
